@@ -79,7 +79,7 @@ Definition mk (k : kwargs) : res rd :=
     | Some v => (v, k_leapdays k)
     | None =>
         match truthy (k_yearday k) with
-        | Some v => (v, if 59 <? v then -1 else k_leapdays k)
+        | Some v => (v, if (59 <? v) && (v <? 366) then -1 else k_leapdays k)   (* if 59 < yearday < 366: leapdays = -1 *)
         | None => (0, k_leapdays k)
         end
     end in
